@@ -238,6 +238,10 @@ func (ctx *Context) makeDetailStr(details []BufferSpan) string {
 
 	var m []Group
 	for _, i := range details {
+		if i.Begin < 0 || i.End > IntType(offset) || i.Begin > i.End {
+			// 不在已匹配文本范围内的span无法标注(例如来自被回退的解析分支)，跳过以免切片越界
+			continue
+		}
 		// fmt.Println("?", i, lastEnd)
 		if i.Begin > lastEnd {
 			curPoint = i.Begin
